@@ -382,4 +382,189 @@ theorem sparse_insert_keeps_shape (s s' : Sp K) (r c : Nat) (v : K)
           obtain ⟨ts, _, h⟩ := bind_ok_inv h
           exact fromTriplets_shape h
 
+/-! ## (b) meshes -/
+section Mesh
+variable {T X : Type} [Zero T]
+
+/-- partial-correctness loop rule for a state predicate -/
+theorem loop_preserves {σ : Type} (P : σ → Prop) (lo hi : Nat) (s s' : σ) (f : σ → Nat → Res σ)
+    (hf : ∀ s i s1, P s → f s i = .ok s1 → P s1) (h0 : P s)
+    (h : Mat.forM' lo hi s f = .ok s') : P s' := by
+  by_cases hle : lo ≤ hi
+  · exact Mat.forM'_ok_inv (fun _ s => P s) lo hi s s' f hle h0
+      (fun i s s1 _ _ hp hs => hf s i s1 hp hs) h
+  · rw [Mat.forM'_empty lo hi s f (by omega)] at h
+    cases h
+    exact h0
+
+/-- the "write one variable of one node" block keeps the number of stored node vectors -/
+theorem poke_size {vs vs' : Array (Array T)} {a w : Nat} {x : T}
+    (h : (do let row ← aget vs a; let row ← aset row w x; aset vs a row : Res (Array (Array T)))
+      = .ok vs') : vs'.size = vs.size := by
+  obtain ⟨row, _, h⟩ := bind_ok_inv h
+  obtain ⟨row', _, h⟩ := bind_ok_inv h
+  exact aset_size h
+
+/-- 1-D mesh: coordinates, raw node access, and the exact classes of `set_nodes_vars`
+    (node test first: `range`; then the length test: `size`) -/
+theorem rejects_mesh1_more (m : Mesh1 T X) (node : Nat) (v : Array T) :
+    (m.nodes.size ≤ node → Mesh1.coord m node = .error .range) ∧
+    (m.vars.size ≤ node → Mesh1.index m node = .error .range) ∧
+    (m.nodes.size ≤ node → Mesh1.setNodesVars m node v = .error .range) ∧
+    (node < m.nodes.size → v.size ≠ m.nvars → Mesh1.setNodesVars m node v = .error .size) := by
+  refine ⟨fun h => Mat.aget_err h, fun h => Mat.aget_err h, fun h => ?_, fun h1 h2 => ?_⟩
+  · simp [Mesh1.setNodesVars, h]
+  · have h1' : ¬ m.nodes.size ≤ node := by omega
+    simp [Mesh1.setNodesVars, h1', h2]
+
+/-- raw `mesh[node][var] = x` on a 1-D mesh with one row of `nvars` entries per node -/
+theorem rejects_mesh1_setVar (m : Mesh1 T X) (h : C19.WF1 m) (hs : C19.RowSized1 m)
+    (node var : Nat) (x : T) (ho : m.nodes.size ≤ node ∨ m.nvars ≤ var) :
+    Mesh1.setVar m node var x = .error .range := C19.setVar_rejects1 m h hs x ho
+
+/-- 2-D mesh: coordinates, raw node access, cross sections (exact classes; the loop of a cross
+    section runs only when the other direction is non-empty) -/
+theorem rejects_mesh2_more (m : Mesh2 T X) (i j : Nat) :
+    ((m.xnodes.size ≤ i ∨ m.ynodes.size ≤ j) → Mesh2.coord m i j = .error .range) ∧
+    (m.vars.size ≤ i * m.ny + j → Mesh2.index m i j = .error .range) ∧
+    (m.nx ≤ i → 0 < m.ny →
+      Mesh2.crossSectionX m i = .error (if m.nx = 0 then .arith else .range)) ∧
+    (m.ny ≤ j → 0 < m.nx →
+      Mesh2.crossSectionY m j = .error (if m.ny = 0 then .arith else .range)) := by
+  refine ⟨fun h => ?_, fun h => Mat.aget_err h, fun hi hy => ?_, fun hj hx => ?_⟩
+  · unfold Mesh2.coord
+    by_cases h1 : m.xnodes.size ≤ i
+    · simp [Mat.aget_err h1, bind, Except.bind]
+    · have h1' : i < m.xnodes.size := by omega
+      simp [Mat.aget_ok h1', Mat.aget_err (h.resolve_left h1), bind, Except.bind]
+  · refine Mat.forM'_first_error 0 m.ny _ _ _ hy ?_
+    show (do let v ← Mesh2.getNodesVars m i 0; Mesh1.setNodesVars _ 0 v) = _
+    unfold Mesh2.getNodesVars
+    rw [C19.guard_err m i 0 (Or.inl hi)]
+    simp [hi, bind, Except.bind]
+  · refine Mat.forM'_first_error 0 m.nx _ _ _ hx ?_
+    show (do let v ← Mesh2.getNodesVars m 0 j; Mesh1.setNodesVars _ 0 v) = _
+    unfold Mesh2.getNodesVars
+    rw [C19.guard_err m 0 j (Or.inr hj)]
+    have h0 : m.nx ≠ 0 := by omega
+    simp [h0, bind, Except.bind]
+
+/-- exact classes of the checked 2-D accessors (C20.lean: `∃ e`): outside the grid the class is
+    the one of the guard (`arith` when a direction is empty — `nx - 1` underflows — else `range`,
+    x before y); a vector of the wrong length at a grid node is `size` -/
+theorem rejects_mesh2_classes (m : Mesh2 T X) (i j : Nat) (v : Array T) :
+    ((m.nx ≤ i ∨ m.ny ≤ j) →
+      Mesh2.getNodesVars m i j = .error (if m.nx = 0 then .arith else if m.nx ≤ i then .range
+        else if m.ny = 0 then .arith else .range) ∧
+      Mesh2.setNodesVars m i j v = .error (if m.nx = 0 then .arith else if m.nx ≤ i then .range
+        else if m.ny = 0 then .arith else .range)) ∧
+    (i < m.nx → j < m.ny → v.size ≠ m.nvars → Mesh2.setNodesVars m i j v = .error .size) := by
+  refine ⟨fun h => ⟨?_, ?_⟩, fun hi hj hv => ?_⟩
+  · unfold Mesh2.getNodesVars; rw [C19.guard_err m i j h]; rfl
+  · unfold Mesh2.setNodesVars; rw [C19.guard_err m i j h]; rfl
+  · simp [Mesh2.setNodesVars, C19.guard_ok m hi hj, hv, bind, Except.bind]
+
+/-- raw `mesh[(i,j)][var] = x` and `apply(func, var)` on a mesh with `nx*ny` rows of `nvars`
+    entries: an offset outside the storage or an unknown variable is rejected (for `apply`
+    provided the grid has a node at all; otherwise no write is attempted and the mesh is
+    returned unchanged) -/
+theorem rejects_mesh2_setVar_apply (m : Mesh2 T X) (h : C19.WF2 m) (hs : C19.Sized2 m)
+    (i j var : Nat) (x : T) (f : X → X → T) :
+    ((m.nx * m.ny ≤ i * m.ny + j ∨ m.nvars ≤ var) → Mesh2.setVar m i j var x = .error .range) ∧
+    (m.nvars ≤ var → 0 < m.nx → 0 < m.ny → Mesh2.apply m f var = .error .range) := by
+  refine ⟨C19.setVar_rejects2 m h hs x, fun hv hx hy => ?_⟩
+  rw [C19.apply_rejects m h hs f hv, if_pos ⟨hx, hy⟩]
+
+/-- writes to a 1-D mesh keep the nodes, the number of variables and the number of node vectors -/
+theorem mesh1_keeps_shape (m m' : Mesh1 T X) (node var : Nat) (v : Array T) (x : T) :
+    (Mesh1.setNodesVars m node v = .ok m' →
+      m'.nvars = m.nvars ∧ m'.nodes = m.nodes ∧ m'.vars.size = m.vars.size) ∧
+    (Mesh1.setVar m node var x = .ok m' →
+      m'.nvars = m.nvars ∧ m'.nodes = m.nodes ∧ m'.vars.size = m.vars.size) := by
+  constructor
+  · intro h
+    unfold Mesh1.setNodesVars at h
+    split at h
+    · cases h
+    · split at h
+      · cases h
+      · obtain ⟨vs, h1, h2⟩ := bind_ok_inv h
+        cases h2
+        exact ⟨rfl, rfl, aset_size h1⟩
+  · intro h
+    unfold Mesh1.setVar at h
+    rw [C19.poke_bind] at h
+    obtain ⟨vs, h1, h2⟩ := bind_ok_inv h
+    cases h2
+    exact ⟨rfl, rfl, poke_size h1⟩
+
+/-- same grid, same number of variables, same number of stored node vectors -/
+def SameShape2 (m m' : Mesh2 T X) : Prop :=
+  m'.nvars = m.nvars ∧ m'.nx = m.nx ∧ m'.ny = m.ny ∧ m'.xnodes = m.xnodes ∧
+  m'.ynodes = m.ynodes ∧ m'.vars.size = m.vars.size
+
+/-- writes to a 2-D mesh keep the grid, the number of variables and the number of node vectors -/
+theorem mesh2_keeps_shape (m m' : Mesh2 T X) (i j var : Nat) (v : Array T) (x : T) (f : X → X → T) :
+    (Mesh2.setNodesVars m i j v = .ok m' → SameShape2 m m') ∧
+    (Mesh2.setVar m i j var x = .ok m' → SameShape2 m m') ∧
+    (Mesh2.assign m x = .ok m' → SameShape2 m m') ∧
+    (Mesh2.apply m f var = .ok m' → SameShape2 m m') := by
+  refine ⟨fun h => ?_, fun h => ?_, fun h => ?_, fun h => ?_⟩
+  · unfold Mesh2.setNodesVars at h
+    obtain ⟨u, _, h⟩ := bind_ok_inv h
+    split at h
+    · cases h
+    · obtain ⟨vs, h1, h2⟩ := bind_ok_inv h
+      cases h2
+      exact ⟨rfl, rfl, rfl, rfl, rfl, aset_size h1⟩
+  · unfold Mesh2.setVar at h
+    rw [C19.poke_bind] at h
+    obtain ⟨vs, h1, h2⟩ := bind_ok_inv h
+    cases h2
+    exact ⟨rfl, rfl, rfl, rfl, rfl, poke_size h1⟩
+  · unfold Mesh2.assign at h
+    obtain ⟨vs, h1, h2⟩ := bind_ok_inv h
+    cases h2
+    refine ⟨rfl, rfl, rfl, rfl, rfl, ?_⟩
+    refine loop_preserves (fun s : Array (Array T) => s.size = m.vars.size) _ _ _ _ _
+      (fun s a s1 hp hs => ?_) rfl h1
+    refine loop_preserves (fun s : Array (Array T) => s.size = m.vars.size) _ _ _ _ _
+      (fun s b s1 hp hs => ?_) hp hs
+    refine loop_preserves (fun s : Array (Array T) => s.size = m.vars.size) _ _ _ _ _
+      (fun s c s1 hp hs => ?_) hp hs
+    rw [poke_size hs, hp]
+  · unfold Mesh2.apply at h
+    obtain ⟨vs, h1, h2⟩ := bind_ok_inv h
+    cases h2
+    refine ⟨rfl, rfl, rfl, rfl, rfl, ?_⟩
+    refine loop_preserves (fun s : Array (Array T) => s.size = m.vars.size) _ _ _ _ _
+      (fun s a s1 hp hs => ?_) rfl h1
+    obtain ⟨xa, _, hs⟩ := bind_ok_inv hs
+    refine loop_preserves (fun s : Array (Array T) => s.size = m.vars.size) _ _ _ _ _
+      (fun s b s1 hp hs => ?_) hp hs
+    obtain ⟨yb, _, hs⟩ := bind_ok_inv hs
+    rw [poke_size hs, hp]
+
+end Mesh
+
+section MeshF64
+variable [Div K] [Transc K]
+
+/-- quadrature and interpolation on a mesh with an empty direction: `n - 1` underflows -/
+theorem rejects_mesh_empty (m1 : Mesh1 K K) (m2 : Mesh2 K K) (x : K) (var : Nat) (g : K → K) :
+    (m1.nodes.size = 0 →
+      Mesh1.interpolate m1 x = .error .arith ∧ Mesh1.trapezium m1 var = .error .arith) ∧
+    (m2.nx = 0 → Mesh2.trapWith g m2 var = .error .arith ∧ Mesh2.trapezium m2 var = .error .arith ∧
+      Mesh2.squareTrapezium m2 var = .error .arith) := by
+  constructor
+  · intro h
+    exact ⟨by simp [Mesh1.interpolate, usub, h, bind, Except.bind],
+      by simp [Mesh1.trapezium, usub, h, bind, Except.bind]⟩
+  · intro h
+    have key : ∀ g : K → K, Mesh2.trapWith g m2 var = .error .arith := by
+      intro g; simp [Mesh2.trapWith, usub, h, bind, Except.bind]
+    exact ⟨key g, key _, key _⟩
+
+end MeshF64
+
 end Ohsl.Props.C20
